@@ -440,3 +440,12 @@ def susc_quad_st(N):
                      st.tuples(ix, ix).map(lambda t: (t[0], t[1], t[1], t[0])),
                      st.tuples(ix, ix).map(lambda t: (t[0], t[1], t[1], t[0])),
                      st.tuples(ix, ix, ix, ix))
+
+
+def chi_quad_st(N):
+    """(i,j,k,l) of chi_ijkl = <T c_i c_j c+_k c+_l>: the index patterns that can be non-zero when N and S_z are conserved
+    ((i,j,i,j), (i,j,j,i), (i,i,i,i)) in half of the draws, arbitrary quadruples otherwise"""
+    ix = st.integers(0, N - 1)
+    return st.one_of(st.tuples(ix, ix).map(lambda t: (t[0], t[1], t[0], t[1])),
+                     st.tuples(ix, ix).map(lambda t: (t[0], t[1], t[1], t[0])),
+                     st.tuples(ix, ix, ix, ix), st.tuples(ix, ix, ix, ix))
